@@ -12,7 +12,10 @@
 //! record: `ok tree=(e1 ...) out=<enc> fmt=<enc|-> meas=((i:w i:w ...) ...)`
 //!   meas: for every line of `out` (split at LF), the display width (`width_cjk`, string level) of the line prefix
 //!         ending at every blank/non-blank transition and at the end of the line; `i` counts characters.
-//! or `parse-error <enc msg>` / `bad-case <why>` / `panic <enc msg>`.
+//! `text` mode: the record starts with `parse-error` instead of `ok` when the parser failed; `tree=`/`out=` then hold the
+//!         entries parsed before the error and `fmt=` what FormatOptions::format had written when it returned the error
+//!         (`inconsistent` if format's result and the parser's disagree).
+//! or `bad-case <why>` / `panic <enc msg>`.
 use std::borrow::Cow;
 use std::collections::HashMap;
 use std::io::{BufRead, Write};
@@ -377,17 +380,30 @@ fn run_text(line: &str) -> String {
     }
     let Some(precs) = precisions(&top[0]) else { return "bad-case precs".to_string() };
     let Some(text) = sx::dec(&line[sp + 1..]) else { return "bad-case enc".to_string() };
-    let entries = match tree::parse_plain(&text) {
-        Ok(es) => es,
-        Err(e) => return format!("parse-error {}", sx::enc(&e)),
-    };
+    // the entries the real parser yields before its first error (FormatOptions::format writes exactly these)
+    let opts = okane_core::parse::ParseOptions::default();
+    let mut entries = Vec::new();
+    let mut failed = false;
+    for r in okane_core::parse::parse_ledger::<syntax::plain::Ident>(&opts, &text) {
+        match r {
+            Ok((_ctx, e)) => entries.push(e),
+            Err(_) => {
+                failed = true;
+                break;
+            }
+        }
+    }
     let mut fmt_out: Vec<u8> = Vec::new();
     let mut r = text.as_bytes();
-    let fmt = match okane_core::format::FormatOptions::new().format(&mut r, &mut fmt_out) {
-        Ok(()) => String::from_utf8(fmt_out).unwrap_or_else(|_| "<non-utf8>".to_string()),
-        Err(e) => format!("<format error: {}>", e),
+    let res = okane_core::format::FormatOptions::new().format(&mut r, &mut fmt_out);
+    let fmt = String::from_utf8(fmt_out).unwrap_or_else(|_| "<non-utf8>".to_string());
+    let status = match (&res, failed) {
+        (Ok(()), false) => "ok",
+        (Err(okane_core::format::FormatError::Parse(_)), true) => "parse-error",
+        _ => "inconsistent",
     };
-    record(&entries, precs, Some(fmt))
+    let rec = record(&entries, precs, Some(fmt));
+    format!("{}{}", status, &rec[2..])
 }
 
 fn run_width(line: &str) -> String {
